@@ -12,6 +12,7 @@ import Juniper.Proofs.HelpersMisc
 import Juniper.Proofs.HelpersRand
 import Juniper.Proofs.HelpersLoops
 import Juniper.Proofs.HelpersWrappers
+import Juniper.Proofs.HelpersShapes
 /-!
 # C19 — pure helpers match their specification (property theorems)
 
@@ -178,16 +179,16 @@ theorem popFirstMin_meets_heap_spec {ε : Type} : PopSpec (popFirstMin (α := ε
   Proofs.Helpers.popFirstMin_spec
 
 /-- `MergeSlices`: the result is `Merge` drained (so a sorted permutation of all inputs), and it is
-stored into the caller's `out` array exactly when that has room for all items. -/
+stored into the caller's `out` array exactly when that has room for all items (`Grow(out[:0], n)`:
+generated arguments, documented contract of `slices.Grow`). -/
 theorem mergeSlices_spec (less : α → α → Bool)
     (pop : ((α × Nat) → (α × Nat) → Bool) → List (α × Nat) → Option ((α × Nat) × List (α × Nat)))
-    (hp : PopSpec pop) (outCap : Int) (ins : List (List α)) :
+    (hp : PopSpec pop) (outCap : Int) (hc : 0 ≤ outCap) (ins : List (List α)) :
     (mergeSlices less pop outCap ins).1.Perm ins.flatten ∧
     (StrictWeak less → (∀ l ∈ ins, SortedBy less l) → SortedBy less (mergeSlices less pop outCap ins).1) ∧
-    ((mergeSlices less pop outCap ins).2 = true ↔ ((ins.map List.length).sum : Int) ≤ outCap) := by
-  refine ⟨(Proofs.Helpers.merge_sorted_perm less pop hp ins).1, (Proofs.Helpers.merge_sorted_perm less pop hp ins).2, ?_⟩
-  show decide _ = true ↔ _
-  exact decide_eq_true_iff
+    ((mergeSlices less pop outCap ins).2 = true ↔ ((ins.map List.length).sum : Int) ≤ outCap) :=
+  ⟨(Proofs.Helpers.merge_sorted_perm less pop hp ins).1, (Proofs.Helpers.merge_sorted_perm less pop hp ins).2,
+    Proofs.Helpers.mergeSlices_reuse less pop outCap hc ins⟩
 
 example : mergeSlices (fun a b => decide (a < b)) popFirstMin 3 [[1, 3], [2]] = ([1, 2, 3], true) := by decide
 
